@@ -154,6 +154,8 @@ def run(ctx):
         sess = role_fns.get("session", set())
         for a in ALG:
             p = "fsm::Fsm::" + a
+            if a == "executeTransitionContent" and not F.has_fn(p):
+                continue   # the three-line procedure inlined into microstep (C02 R02.5 checks the inlined loop)
             ctx.ob("R13.3", "session role reaches %s" % a, p in sess, "", "%s reachable from the session thread closure: %s" % (p, p in sess))
         for role, fs in sorted(role_fns.items()):
             if role == "session":
